@@ -35,6 +35,7 @@ KINDS = {
 }
 
 
+GN = ["zeta", "_under", "alpha"]     # named fields: not in alphabetical order, one starting with `_`
 SELS = [("ref",), ("ref_mut",), ("owned", "ref"), ("owned", "ref_mut"), ("ref", "ref_mut"), ("owned",)]   # besides none and all three
 
 
@@ -82,7 +83,7 @@ def gen_case(cid, kinds, cfg, generic):
         fs = []
         for fi, t in enumerate(tys):
             fa = "#[try_into(ignore)] " if fi in fign.get(vi, ()) else ""
-            fs.append(fa + (("g%d: " % fi) if named else "") + ty(t))
+            fs.append(fa + (("%s: " % GN[fi]) if named else "") + ty(t))
         body = "" if named is None else (" { " + ", ".join(fs) + " }" if named else "(" + ", ".join(fs) + ")")
         variants.append(" ".join(attrs) + " " + NAMES[vi] + body)
     eattrs = []
@@ -100,7 +101,7 @@ def gen_case(cid, kinds, cfg, generic):
         if not tys:
             return "E::%s%s" % (NAMES[vi], "" if named is None else (" {}" if named else "()"))
         if named:
-            return "E::%s { %s }" % (NAMES[vi], ", ".join("g%d: %s" % (fi, v) for fi, v in enumerate(vals)))
+            return "E::%s { %s }" % (NAMES[vi], ", ".join("%s: %s" % (GN[fi], v) for fi, v in enumerate(vals)))
         return "E::%s(%s)" % (NAMES[vi], ", ".join(vals))
 
     def pat(vi, binds):
@@ -108,7 +109,7 @@ def gen_case(cid, kinds, cfg, generic):
         if not tys:
             return "E::%s%s" % (NAMES[vi], "" if named is None else (" {}" if named else "()"))
         if named:
-            return "E::%s { %s }" % (NAMES[vi], ", ".join("g%d: %s" % (fi, b) for fi, b in enumerate(binds)))
+            return "E::%s { %s }" % (NAMES[vi], ", ".join("%s: %s" % (GN[fi], b) for fi, b in enumerate(binds)))
         return "E::%s(%s)" % (NAMES[vi], ", ".join(binds))
 
     L = []
